@@ -515,6 +515,95 @@ def str_iter_pred(i, fr, st, pc, a, t, fn, r):
     return _ret(i, st, pc, W(1, bits=[B.atom("strpred%d" % k)]))
 
 
+def call_closure(i, fr, st, pc, clos, args):
+    """call a closure value with already-evaluated arguments -> outcomes"""
+    if not (isinstance(clos, Agg) and clos.kind == "closure"):
+        raise Undecided("call of non-closure %r" % (clos,))
+    body = i.facts.body(clos.key)
+    if body is None:
+        raise Undecided("closure body %s" % clos.key)
+    cell = new_cell()
+    st.mem[cell] = clos
+    first_ty = body["mir"]["locals"][1]["ty"]
+    self_arg = Ptr(cell, ()) if first_ty["k"] == "ref" else clos
+    return i.call_mir(body, body["mir"], [self_arg] + list(args), st, dict(fr.env), fr.depth + 1, pc)
+
+
+def slice_iter_all(i, fr, st, pc, a, t, fn, r):
+    """Iterator::all / any over a slice iterator with a closure: conjunction / disjunction of the
+    closure results over every element (closures are pure here)"""
+    is_any = fn["name"] == "any"
+    itp, clos = a
+    it = i.read_ptr(st, itp) if isinstance(itp, Ptr) else itp
+    work = [(st, pc, wbool(not is_any), it)]
+    done = []
+    while work:
+        s, p, acc, cur = work.pop()
+        cur2, item = iter_next(i, s, cur)
+        if item is None:
+            done.append(Outcome("return", s, p, acc))
+            continue
+        for o in call_closure(i, fr, s, p, clos, [item]):
+            if o.kind != "return":
+                done.append(o)
+                continue
+            v = o.value
+            acc2 = b_and(acc, v) if not is_any else b_not(b_and(b_not(acc), b_not(v)))
+            work.append((o.state, o.pc, acc2, cur2))
+        if len(work) + len(done) > i.max_paths:
+            raise Undecided("path budget in all/any")
+    return done
+
+
+def vec_retain(i, fr, st, pc, a, t, fn, r):
+    vp, clos = a
+    h = i.read_ptr(st, vp)
+    elems = list(i.slice_elems(st, h))
+    work = [(st, pc, [], 0)]
+    done = []
+    while work:
+        s, p, kept, k = work.pop()
+        if k == len(elems):
+            _vec_set(i, s, vp, kept)
+            done.append(Outcome("return", s, p, UNIT))
+            continue
+        cell = new_cell()
+        s.mem[cell] = elems[k]
+        for o in call_closure(i, fr, s, p, clos, [Ptr(cell, ())]):
+            if o.kind != "return":
+                done.append(o)
+                continue
+            v = o.value
+            if isinstance(v, W) and v.val is not None:
+                work.append((o.state, o.pc, kept + ([elems[k]] if v.val else []), k + 1))
+            else:
+                s2 = o.state.fork()
+                work.append((o.state, o.pc + (v,), kept + [elems[k]], k + 1))
+                work.append((s2, o.pc + (b_not(v),), list(kept), k + 1))
+        if len(work) + len(done) > i.max_paths:
+            raise Undecided("path budget in retain")
+    return done
+
+
+def seq_event(name):
+    def f(i, fr, st, pc, a, t, fn, r):
+        # sort / dedup on symbolic elements: order and duplicates are not modelled; the call is recorded
+        i.seq_events = getattr(i, "seq_events", []) + [name]
+        return _ret(i, st, pc, UNIT)
+    return f
+
+
+def slice_first(i, fr, st, pc, a, t, fn, r):
+    p = a[0]
+    if i.slice_len(st, p) == 0:
+        return _ret(i, st, pc, NONE)
+    return _ret(i, st, pc, some(i.elem_ptr(p, 0)))
+
+
+def vec_clone(i, fr, st, pc, a, t, fn, r):
+    return box_clone(i, fr, st, pc, a, t, fn, r)
+
+
 def try_branch(i, fr, st, pc, a, t, fn, r):
     # <Result<T,E> as Try>::branch : Ok(v) -> Continue(v) ; Err(e) -> Break(Err(e))
     v = a[0]
@@ -578,6 +667,13 @@ TABLE = {
     "core::num::<impl usize>::trailing_zeros": trailing_zeros,
     "std::vec::from_elem": vec_from_elem,
     "std::vec::Vec::<T>::new": vec_new,
+    "std::vec::Vec::<T, A>::retain": vec_retain,
+    "std::slice::<impl [T]>::sort": seq_event("sort"),
+    "std::vec::Vec::<T, A>::dedup": seq_event("dedup"),
+    "<std::slice::Iter<'a, T> as std::iter::Iterator>::all": slice_iter_all,
+    "<std::slice::Iter<'a, T> as std::iter::Iterator>::any": slice_iter_all,
+    "core::slice::<impl [T]>::first": slice_first,
+    "<std::vec::Vec<T, A> as std::clone::Clone>::clone": vec_clone,
     "std::vec::Vec::<T, A>::push": vec_push,
     "<std::vec::Vec<T, A> as std::iter::Extend<&'a T>>::extend": vec_extend,
     "std::vec::Vec::<T, A>::len": vec_len,
